@@ -186,7 +186,13 @@ where
         let cdf = fast_quantized_cdf::<Probability, F, PRECISION>(probabilities, normalization)?;
 
         let mut extended_cdf = Vec::with_capacity(probabilities.len() + 1);
-        extended_cdf.extend(cdf.zip(symbols));
+        let mut symbols = symbols.into_iter();
+        extended_cdf.extend(cdf.zip(&mut symbols));
+        if extended_cdf.len() != probabilities.len() || symbols.next().is_some() {
+            // `symbols` must yield exactly `probabilities.len()` symbols (silently truncating
+            // the distribution would leave the last provided symbol with all remaining mass).
+            return Err(());
+        }
         let last_symbol = extended_cdf.last().expect("`len` >= 2").1.clone();
         extended_cdf.push((wrapping_pow2(PRECISION), last_symbol));
 
